@@ -157,12 +157,26 @@ package headers
 //@   ensures ghostv("cleaned", 0) == old(ghostv("cleaned", 0)) + 1
 //@   modifies allheap, ghost("cleaned")
 
-// IntersectHash (fork point of two ancestries) walks two parent chains in nested loops; what it returns is not
-// decided here: forkOf is an uninterpreted function of the two branches and of the branch structure it reads.
-//@ hfunc opaque forkOf(b *Branch, other *Branch) bitcoin.Hash32 reads Branch.parent, Branch.parentHeight, Branch.firstHeader, wire.BlockHeader.PrevBlock
-//@ trusted func (*Branch).IntersectHash
-//@   ensures result != nil ==> *result == forkOf(b, other)
+// IntersectHash (fork point of two ancestries). The fork point is defined over the branch tree: walk up the
+// ancestry of b to the first branch that is also in the ancestry of other; the two ancestries leave that branch
+// through one child each (none for the branch itself); the fork is the lower of the two leave points, i.e. the
+// header before the first header of the child that leaves lower. inAnc / leaveOf / forkWalk are that definition;
+// forkOf stays opaque for the callers (ProcessHeader, sendBranchUpdate) and is revealed only in IntersectHash.
+//@ hfunc inAnc(x *Branch, c *Branch) bool reads Branch.parent = ite(x == nil, false, ite(x == c, true, inAnc(x.parent, c)))
+//@ hfunc leaveOf(x *Branch, prev *Branch, c *Branch) *Branch reads Branch.parent = ite(x == nil, nil, ite(x == c, prev, leaveOf(x.parent, x, c)))
+//@ pure func lowerLeave(l *Branch, ol *Branch) *Branch = ite(ol == nil || (l != nil && l.parentHeight <= ol.parentHeight), l, ol)
+//@ hfunc forkWalk(x *Branch, prev *Branch, other *Branch) *Branch reads Branch.parent, Branch.parentHeight = ite(x == nil, nil, ite(inAnc(other, x), lowerLeave(prev, leaveOf(other, nil, x)), forkWalk(x.parent, x, other)))
+//@ hfunc opaque forkOf(b *Branch, other *Branch) bitcoin.Hash32 reads Branch.parent, Branch.parentHeight, Branch.firstHeader, wire.BlockHeader.PrevBlock = forkWalk(b, nil, other).firstHeader.PrevBlock
+//@ func (*Branch).IntersectHash
+//@   reveal forkOf
+//@   requires b != nil
+//@   ensures [C07.fork-point] result != nil ==> forkWalk(b, nil, other) != nil && *result == forkOf(b, other)
+//@   ensures [C07.fork-none] result == nil ==> forkWalk(b, nil, other) == nil
 //@   modifies nothing
+//@   loop 1
+//@     invariant forkWalk(b, nil, other) == forkWalk(current, link, other)
+//@   loop 2
+//@     invariant inAnc(other, current) == inAnc(otherCurrent, current) && leaveOf(other, nil, current) == leaveOf(otherCurrent, otherLink, current)
 
 //@ ufunc bitsOf(t int, max uint32) uint32
 
@@ -474,6 +488,9 @@ package headers
 //@   requires repoInv(repo) && proof != nil
 //@   ensures [C18.not-verifiable] old(proof.BlockHeader) == nil && old(proof.BlockHash) == nil ==> result0 == -1 && !result1 && result2 == merkle_proof.ErrNotVerifiable
 //@   ensures [C18.proof-verified] result2 == nil ==> merkleOK(*proof)
+//@   ensures [C18.tied-to-header] result2 == nil && old(proof.BlockHeader) != nil ==> proof.BlockHeader == old(proof.BlockHeader)
+//@   ensures [C18.tied-to-stored-header] result2 == nil && old(proof.BlockHeader) == nil && !old(knownIn(repo.branches, *proof.BlockHash)) ==> proof.BlockHeader != nil && hashOf(proof.BlockHeader) == old(*proof.BlockHash)
+//@   ensures [C18.tied-to-held-header] result2 == nil && old(proof.BlockHeader) == nil && old(knownIn(repo.branches, *proof.BlockHash)) ==> exists(j, 0, len(repo.branches), holderAt(repo.branches, *proof.BlockHash, j) && anc(repo.branches[j], findH(repo.branches[j], *proof.BlockHash)) != nil && proof.BlockHeader == anc(repo.branches[j], findH(repo.branches[j], *proof.BlockHash)).Header)
 //@   ensures [C18.header-known] result2 == nil && old(proof.BlockHeader) != nil ==> old(knownIn(repo.branches, hashOf(proof.BlockHeader)) || has(repo.heights, hashOf(proof.BlockHeader)))
 //@   ensures [C18.hash-known] result2 == nil && old(proof.BlockHeader) == nil ==> old(knownIn(repo.branches, *proof.BlockHash) || has(repo.heights, *proof.BlockHash))
 //@   ensures [C18.height] result2 == nil && old(proof.BlockHeader) != nil && old(knownIn(repo.branches, hashOf(proof.BlockHeader))) ==> old(exists(j, 0, len(repo.branches), holderAt(repo.branches, hashOf(proof.BlockHeader), j) && result0 == findH(repo.branches[j], hashOf(proof.BlockHeader))))
